@@ -1,8 +1,116 @@
-/- Driver handler owned by property C19: `c19 <args…>` requests. -/
+/- Driver handler owned by property C19: `c19 <args…>` requests.
+
+   Names travel as hex of their bytes (`-` = empty); the model sees one `Char`
+   per byte, so its order is exactly Rust's byte-wise `String` order.
+   A table entry is `<hexkey>:<s><v>` with `s` ∈ `t` (fn() -> Verdict[(),()]),
+   `e` (fn()), `o` (anything else) and `v` ∈ `A` (accept) / `R` (reject).
+
+   c19 keys <hexkey>*                      ↦ ok <hexkey>*            (get_tests_keys)
+   c19 tests <dbg> <entry>*                ↦ ok <hexname>:<hexkey>* | panic   (get_tests)
+   c19 run <dbg> <entry>*                  ↦ <Ok|Err|panic> <hexkey>*         (run_tests; keys of bodies run, in order)
+   c19 getfn <t|e|o> <hexname> <entry>*    ↦ ok <hexkey> | missing | mistyped
+   c19 cli <check|test|run|doc|print> <dbg> <hasCtx> <read> <parse> <type> <hexfn> <entry>*
+                                           ↦ <SUCCESS|FAILURE|panic> [T:<hexkey> | E:<hexkey> | S:<n>]*
+-/
 import Driver.Util
+import RotoV.Generated.TestRunner
 
 namespace Driver.C19
+open RotoV RotoV.TR RotoV.Gen.TestRunner
 
-def handle (_args : List String) : String := "bad-op"
+def decName (s : String) : Option Name :=
+  if s = "-" then some [] else (Driver.unhex s).map (fun bs => bs.map (fun b => Char.ofNat b.toNat))
+
+def hexDigit (n : Nat) : Char := if n < 10 then Char.ofNat (48 + n) else Char.ofNat (87 + n)
+
+def encName (n : Name) : String :=
+  if n.isEmpty then "-" else String.ofList (n.flatMap (fun c => [hexDigit (c.toNat / 16 % 16), hexDigit (c.toNat % 16)]))
+
+def sigOf (c : Char) : Option Sig :=
+  if c = 't' then some testSig else if c = 'e' then some entrySig else if c = 'o' then some ⟨[.other 1], .other 0⟩ else none
+
+def verdictOf (c : Char) : Option (Verdict Unit Unit) :=
+  if c = 'A' then some (.Accept ()) else if c = 'R' then some (.Reject ()) else none
+
+def decEntry (s : String) : Option (Name × FnInfo) :=
+  match s.splitOn ":" with
+  | [k, sv] =>
+    match sv.toList with
+    | [sc, vc] => do
+      let k ← decName k
+      let sg ← sigOf sc
+      let v ← verdictOf vc
+      pure (k, ⟨sg, v⟩)
+    | _ => none
+  | _ => none
+
+def decTable (xs : List String) : Option Table := xs.mapM decEntry
+
+def bool? (s : String) : Option Bool := if s = "1" then some true else if s = "0" then some false else none
+
+def showEvents (l : List Event) : String :=
+  " ".intercalate (l.map (fun e => match e with
+    | .ranTest k => "T:" ++ encName k
+    | .calledEntry k => "E:" ++ encName k
+    | .stage n => "S:" ++ toString n))
+
+def handle (args : List String) : String :=
+  match args with
+  | "keys" :: ks =>
+    match ks.mapM decName with
+    | some ks =>
+      let t : Table := ks.map (fun k => (k, ⟨testSig, .Accept ()⟩))
+      " ".intercalate ("ok" :: (get_tests_keys ⟨t⟩).map encName)
+    | none => "bad-op"
+  | "tests" :: dbg :: es =>
+    match bool? dbg, decTable es with
+    | some dbg, some t =>
+      match get_tests dbg ⟨t⟩ with
+      | .ok cs => " ".intercalate ("ok" :: cs.map (fun c => encName c.name ++ ":" ++ encName c.func.key))
+      | .panic => "panic"
+    | _, _ => "bad-op"
+  | "run" :: dbg :: es =>
+    match bool? dbg, decTable es with
+    | some dbg, some t =>
+      let (o, log) := (run_tests (ε := Unit) dbg ⟨t⟩ ()) []
+      let keys := log.filterMap (fun e => match e with | .ranTest k => some (encName k) | _ => none)
+      let r := match o with
+        | .ok (.Ok ()) => "Ok"
+        | .ok (.Err ()) => "Err"
+        | .err _ => "throw"
+        | .panic => "panic"
+      " ".intercalate (r :: keys)
+    | _, _ => "bad-op"
+  | "getfn" :: sg :: name :: es =>
+    match sg.toList, decName name, decTable es with
+    | [c], some name, some t =>
+      match sigOf c with
+      | some want =>
+        match get_function t want name with
+        | .Ok f => "ok " ++ encName f.key
+        | .Err .doesNotExist => "missing"
+        | .Err .typeMismatch => "mistyped"
+      | none => "bad-op"
+    | _, _, _ => "bad-op"
+  | "cli" :: cmd :: dbg :: hasCtx :: r :: p :: t :: fn :: es =>
+    match bool? dbg, bool? hasCtx, bool? r, bool? p, bool? t, decName fn, decTable es with
+    | some dbg, some hasCtx, some r, some p, some t, some fn, some tb =>
+      let W : World := ⟨hasCtx, r, p, t, tb⟩
+      let c : Option Command :=
+        if cmd = "check" then some (.Check ⟨⟩) else if cmd = "test" then some (.Test ⟨⟩)
+        else if cmd = "run" then some (.Run ⟨⟩ fn) else if cmd = "doc" then some (.Doc ⟨⟩)
+        else if cmd = "print" then some (.Print ⟨⟩) else none
+      match c with
+      | some c =>
+        let (o, log) := (cli dbg W ⟨c⟩ W.runtime) []
+        let code := match o with
+          | .ok .SUCCESS => "SUCCESS"
+          | .ok .FAILURE => "FAILURE"
+          | .err _ => "throw"
+          | .panic => "panic"
+        (code ++ " " ++ showEvents log).trimAscii.toString
+      | none => "bad-op"
+    | _, _, _, _, _, _, _ => "bad-op"
+  | _ => "bad-op"
 
 end Driver.C19
